@@ -45,7 +45,8 @@ AuxInit == [lastApp |-> 0,          \* highest application MsgSeqNum delivered i
             hs |-> FALSE,           \* OnLogon was called on the current connection
             ourLogout |-> FALSE,    \* our Logout was transmitted on the current connection
             notified |-> FALSE,     \* inside a logged-on period (OnLogon seen, OnLogout not yet)
-            hadPeriod |-> FALSE]    \* the current connection already had a logged-on period that ended
+            hadPeriod |-> FALSE,    \* the current connection already had a logged-on period that ended
+            resetSent |-> FALSE]    \* we transmitted a Logon with ResetSeqNumFlag=Y on the current connection
 
 RECURSIVE CbFold(_, _, _)
 CbFold(a, cb, i) ==
@@ -58,11 +59,13 @@ CbFold(a, cb, i) ==
 
 AuxNext(aux, o) ==
     LET newConn == o.ev.k = "Connect" /\ ~o.pre.conn
-        a0 == IF newConn THEN [aux EXCEPT !.sentAny = FALSE, !.hs = FALSE, !.ourLogout = FALSE, !.hadPeriod = FALSE]
+        a0 == IF newConn THEN [aux EXCEPT !.sentAny = FALSE, !.hs = FALSE, !.ourLogout = FALSE, !.hadPeriod = FALSE,
+                                          !.resetSent = FALSE]
               ELSE aux
         a1 == CbFold(a0, o.cb, 1)
         a2 == [a1 EXCEPT !.sentAny = @ \/ Wire(o) # <<>>,
-                         !.ourLogout = @ \/ (\E x \in Range(o.out) : x.t = "5")]
+                         !.ourLogout = @ \/ (\E x \in Range(o.out) : x.t = "5"),
+                         !.resetSent = @ \/ (\E x \in Range(o.out) : x.t = "A" /\ x.x = "Y")]
     IN IF o.post.ep # o.pre.ep THEN [a2 EXCEPT !.lastApp = 0] ELSE a2
 
 \* ------------------------------------------------------------------ C01
@@ -95,6 +98,12 @@ SeqChecked(m) == m.t \in {"D", "0", "1", "3"} \/ (m.t = "4" /\ m.gf = "Y")
 \* send queue until the next flush when the gap is detected on the Logon itself)
 GenRR(o) == Count(o.cb, LAMBDA c : c.k = "ToAdmin" /\ c.t = "2")
 
+\* the early message was kept - or was already taken from the stash and handled within the same step
+KeptOrHandled(o, m) ==
+    \/ m.seq \in o.post.stash
+    \/ o.post.nIn > m.seq
+    \/ \E i \in DOMAIN o.cb : o.cb[i].k \in {"FromApp", "FromAdmin"} /\ o.cb[i].seq = m.seq /\ o.cb[i].n = m.seq
+
 C04_Clause(c, aux, o) ==
     LET rr == RRs(o)
         pre == o.pre
@@ -107,7 +116,7 @@ C04_Clause(c, aux, o) ==
     CASE c = "requestOnGap" ->   \* a gap seen in normal operation: exactly one exact ResendRequest, message kept
             (tooHigh /\ pre.st \in {"inSession", "pending(inSession)"} /\ pre.q = 0) =>
                 /\ GenRR(o) = 1 /\ Len(rr) = 1 /\ rr[1].a = pre.nIn /\ rr[1].b = wantEnd
-                /\ m.seq \in o.post.stash
+                /\ KeptOrHandled(o, m)
       [] c = "requestOnLogonGap" ->  \* a gap seen on the Logon itself: one ResendRequest, recovery starts
             (IsIn(o) /\ m.t = "A" /\ Clean(m) /\ m.app = "ok" /\ m.rsf # "Y" /\ pre.st = "logon" /\ m.seq > pre.nIn
                 /\ ~o.cfg.resetOnLogon) =>
@@ -118,7 +127,8 @@ C04_Clause(c, aux, o) ==
                 /\ GenRR(o) <= 1
                 /\ (GenRR(o) = 1 /\ pre.q = 0 /\ Len(rr) = 1) => (rr[1].a = o.post.nIn /\ o.post.st \in Recovering)
       [] c = "keepsEarly" ->     \* an early message arriving during recovery is kept too
-            (tooHigh /\ pre.st \in Recovering /\ o.post.st \in LoggedOnSt) => m.seq \in o.post.stash
+            \* (kept, or already delivered from the stash within the same step)
+            (tooHigh /\ pre.st \in Recovering /\ o.post.st \in LoggedOnSt) => KeptOrHandled(o, m)
       [] c = "nothingKeptIsLost" ->
             \* while recovery goes on, no kept message above the expected number disappears
             (pre.st \in Recovering /\ o.post.st \in Recovering /\ o.post.ep = pre.ep
@@ -129,7 +139,9 @@ C04_Clause(c, aux, o) ==
             \* delivered: recovery never ends with a kept, number-consuming message AT the expected number
             (pre.st \in Recovering /\ o.post.st \in {"inSession", "pending(inSession)"} /\ o.post.ep = pre.ep
                 /\ o.ev.k \in {"Incoming", "Consume"}) =>
-                ~(o.post.nIn \in pre.stash /\ pre.stasht[o.post.nIn] \in {"D", "0", "1", "3"})
+                \* (unless the peer just sent a different message under that very number, replacing it)
+                ~(o.post.nIn \in pre.stash /\ pre.stasht[o.post.nIn] \in {"D", "0", "1", "3"}
+                  /\ ~(IsIn(o) /\ o.ev.m.seqc = "ok" /\ o.ev.m.seq = o.post.nIn))
 
 C04_Names == {"requestOnGap", "requestOnLogonGap", "noExtraRequest", "keepsEarly", "nothingKeptIsLost", "drainDelivers"}
 C04_Fails(aux, o) == {c \in C04_Names : ~C04_Clause(c, aux, o)}
@@ -225,8 +237,11 @@ C07_Clause(c, aux, o) ==
             (goodLogon1 /\ o.cfg.role = "acc") =>
                     (Len(lo) = 1 /\ lo[1].seq = 1 /\ lo[1].x = "Y" /\ post.nOut = 2 /\ post.nIn = 2)
       [] c = "echoDoesNotResetAgain" ->
-            (goodLogon1 /\ o.cfg.role = "init" /\ pre.sentReset) =>
+            (goodLogon1 /\ o.cfg.role = "init" /\ aux.resetSent) =>
                     (post.ep = pre.ep /\ post.nIn = 2 /\ post.nOut = pre.nOut)
+      [] c = "resetFlagHonoured" ->  \* a received flag that does not answer a reset of ours resets the store
+            (goodLogon1 /\ o.cfg.role = "init" /\ ~aux.resetSent) =>
+                    (post.ep # pre.ep /\ post.nIn = 2 /\ post.nOut = 1)
       [] c = "resetOnLogout" ->
             (o.cfg.resetOnLogout /\ IsIn(o) /\ m.t = "5" /\ Clean(m) /\ m.app = "ok"
                 /\ pre.st \in LoggedOnSt \cup {"logout"} /\ pre.inbuf = 0) =>
@@ -243,7 +258,7 @@ C07_Clause(c, aux, o) ==
                 /\ (Clean(m) /\ m.app = "ok" /\ m.newseq > pre.nIn /\ (m.gf = "Y" => m.seq = pre.nIn)) =>
                       post.nIn = m.newseq
 
-C07_Names == {"onlyAgreedResets", "continuity", "resetLogonSent", "resetLogonReceived", "echoDoesNotResetAgain",
+C07_Names == {"onlyAgreedResets", "continuity", "resetLogonSent", "resetLogonReceived", "echoDoesNotResetAgain", "resetFlagHonoured",
               "resetOnLogout", "resetOnDisconnect", "seqResetForwardOnly"}
 C07_Fails(aux, o) == {c \in C07_Names : ~C07_Clause(c, aux, o)}
 C07_Step(aux, o) == C07_Fails(aux, o) = {}
@@ -328,7 +343,8 @@ C20_Clause(c, aux, o) ==
             (IsIn(o) /\ m.t # "garbled" /\ pre.st = "pending(resend)" /\ post.st \in LoggedOnSt /\ post.ep = pre.ep) =>
                 /\ post.st \in Recovering \/ \A k \in pre.stash : k <= post.nIn
                 /\ \A k \in pre.stash : k > post.nIn => k \in post.stash
-                /\ (Clean(m) /\ SeqChecked(m) /\ m.seq > pre.nIn) => (m.seq \in post.stash /\ (o.cfg.chunk = 0 => GenRR(o) = 0))
+                /\ (Clean(m) /\ SeqChecked(m) /\ m.seq > pre.nIn) =>
+                        (KeptOrHandled(o, m) /\ (o.cfg.chunk = 0 => GenRR(o) = 0))
       [] c = "arming" ->     \* every transmitted message re-arms the heartbeat timer, every inbound frame the peer timer
             /\ Count(o.tm, LAMBDA t : t[1] = "hb") = Len(w)
             /\ \A i \in DOMAIN o.tm : o.tm[i][1] = "hb" => (o.tm[i][2] = post.hb * 1000 \/ o.tm[i][2] = pre.hb * 1000)
